@@ -210,20 +210,40 @@ def inline_pure_aliases(fn, keep=()):
     for x in ast.walk(fn):
         if isinstance(x, ast.Name) and isinstance(x.ctx, (ast.Store, ast.Del)):
             binds[x.id] = binds.get(x.id, 0) + 1
-    stored_roots = set()
+    def shape(e):
+        """access path with subscripts abstracted: a.b[k].c -> ('a', '.b', '[]', '.c')"""
+        parts = []
+        while isinstance(e, (ast.Subscript, ast.Attribute)):
+            parts.append("[]" if isinstance(e, ast.Subscript) else "." + e.attr)
+            e = e.value
+        if not isinstance(e, ast.Name):
+            return None
+        return (e.id,) + tuple(reversed(parts))
+    # a store to path P re-binds what every alias of P or of something below P stands for; an in-place mutator on the
+    # object at Q changes what the elements below Q are.  Mutating the aliased object itself is seen through the alias too.
+    stored_paths, mutated_paths = set(), set()
     for x in ast.walk(fn):
         if isinstance(x, (ast.Subscript, ast.Attribute)) and isinstance(x.ctx, (ast.Store, ast.Del)):
-            b = x
-            while isinstance(b, (ast.Subscript, ast.Attribute)):
-                b = b.value
-            if isinstance(b, ast.Name):
-                stored_roots.add(b.id)
+            sp = shape(x)
+            if sp:
+                stored_paths.add(sp)
         if isinstance(x, ast.Call) and isinstance(x.func, ast.Attribute) and x.func.attr in ("append", "extend", "pop", "update", "clear", "remove", "insert", "setdefault", "sort", "reverse"):
-            b = x.func.value
-            while isinstance(b, (ast.Subscript, ast.Attribute)):
-                b = b.value
-            if isinstance(b, ast.Name):
-                stored_roots.add(b.id)
+            sp = shape(x.func.value)
+            if sp:
+                mutated_paths.add(sp)
+
+    def invalidated(e):
+        sp = shape(e)
+        if sp is None:
+            return True
+        for q in stored_paths:
+            if sp[:len(q)] == q:
+                return True
+        for q in mutated_paths:
+            if len(sp) > len(q) and sp[:len(q)] == q:
+                return True
+        return False
+    stored_roots = set()
 
     def pure(e):
         if isinstance(e, ast.Name):
@@ -253,7 +273,24 @@ def inline_pure_aliases(fn, keep=()):
                     if isinstance(b, ast.Assign) and any(isinstance(y, ast.Name) and y.id == f and isinstance(y.ctx, ast.Store) for t in b.targets for y in ast.walk(t)):
                         return b.lineno < s.lineno
                 return False
-            if binds.get(nm) == 1 and nm not in params and nm not in keep and nm not in stored_roots and all(stable(f) for f in free):
+            def expanded(e):
+                # the path with the aliases accepted so far written out (an alias of an alias hides nothing)
+                e = clone_ast(e)
+                for _ in range(8):
+                    hit = False
+                    for y in ast.walk(e):
+                        for fld, val in ast.iter_fields(y):
+                            if isinstance(val, ast.Name) and val.id in alias and isinstance(val.ctx, ast.Load):
+                                setattr(y, fld, clone_ast(alias[val.id].value))
+                                hit = True
+                    if isinstance(e, ast.Name) and e.id in alias:
+                        e = clone_ast(alias[e.id].value)
+                        hit = True
+                    if not hit:
+                        break
+                return e
+            if binds.get(nm) == 1 and nm not in params and nm not in keep and not invalidated(expanded(s.value)) and all(stable(f) for f in free) \
+                    and (nm,) not in stored_paths and not any(q[0] == nm for q in stored_paths | mutated_paths):
                 alias[nm] = s
     if not alias:
         return fn
